@@ -3,7 +3,7 @@ from symx.api import And, Iff, Implies, Instance, Ite, Not, Or, sabs, ssum
 
 META = {
     "bounds": {
-        "text": "length L <= 3 (quick) / 4-5 (thorough); every character an arbitrary Unicode scalar value (str) or arbitrary byte (bytes)",
+        "text": "length L <= 3 (quick) / 5 (thorough; 3 for fully symbolic UTF-8 bytes, 2 for the str/bytes agreement and the encoder); every character an arbitrary Unicode scalar value (str) or arbitrary byte (bytes)",
         "offsets": "start/end offsets enumerated (concrete) over the text; target columns symbolic and unbounded",
         "width": "get_char_width replaced by an uninterpreted function into {0,1,2} agreeing with wcwidth on ASCII/C0/C1",
     },
@@ -25,13 +25,13 @@ def instances(tier):
         for enc in ("narrow", "wide"):
             out.append(Instance("%s.text_pos.L%d" % (enc, L), "h_text_pos", {"kind": "bytes", "L": L, "enc": enc}, timeout=600))
             out.append(Instance("%s.move.L%d" % (enc, L), "h_move", {"kind": "bytes", "L": L, "enc": enc}, timeout=600))
-    for L in ((1, 2) if q else (1, 2, 3, 4)):
+    for L in ((1, 2) if q else (1, 2, 3)):
         out.append(Instance("utf8.additive.L%d" % L, "h_additive", {"kind": "bytes", "L": L, "enc": "utf8"}, timeout=900))
         out.append(Instance("utf8.text_pos.L%d" % L, "h_text_pos", {"kind": "bytes", "L": L, "enc": "utf8"}, timeout=900))
         out.append(Instance("utf8.move.L%d" % L, "h_move", {"kind": "bytes", "L": L, "enc": "utf8"}, timeout=900))
-    for L in ((1,) if q else (1, 2, 3)):
+    for L in ((1,) if q else (1, 2)):
         out.append(Instance("agree.L%d" % L, "h_agree", {"L": L}, timeout=900))
-    for L in ((1, 2) if q else (1, 2, 3)):
+    for L in ((1, 2) if q else (1, 2)):
         out.append(Instance("encode.L%d" % L, "h_encode", {"L": L}, timeout=900))
     for shape in (["d", "ad", "da", "dd", "ada", "dad", "D", "aD", "Da", "DD", "dD", "Dd", "aDa", "g", "ag", "gg", "gD"] if q else
                   ["d", "ad", "da", "dd", "ada", "dad", "add", "dda", "aad", "daa", "adad", "ddd", "D", "aD", "Da", "DD", "dD", "Dd", "aDa", "DaD", "aDD", "g", "ag", "ga", "gg", "gD", "Dg", "gd", "aga"]):
